@@ -39,7 +39,7 @@ Section Generic.
       | OutOfModel => OutOfModel
       end.
   Proof.
-    cbn [exp_s]. destruct (exp_s o dv x root st) as [[s m]|e p| |]; cbn [bind fst snd]; reflexivity.
+    cbn [exp_s]. destruct (exp_s o dv x root st) as [[s m]|e p| |]; cbn [bind fst snd taint orb andb]; reflexivity.
   Qed.
 
   (* the operands of the default operator see the stack of the operator *)
@@ -47,7 +47,7 @@ Section Generic.
     exp_s o dv l root st = Ok (path, m1) -> path <> ""%string ->
     ref_eval_s o dv root st (parse_path path sep (p_maxIdx (eo_p o)) (p_numKeys (eo_p o)) (p_escape (eo_p o))) sep = Err e pe ->
     exp_s o dv (EDefault l r sep) root st
-    = (y <- exp_s o dv r root st ;; Ok (fst y, (m1 || is_cyc e) || snd y)).
+    = taint (m1 || cyc_err e pe) (exp_s o dv r root st).
   Proof.
     intros Hl Hn Hr. cbn [exp_s]. rewrite Hl.
     destruct (String.eqb path "") eqn:E; [apply String.eqb_eq in E; contradiction|].
@@ -60,6 +60,15 @@ Section Mono.
   Variable o : eopts.
   Variables dv dv' : value -> stack -> string -> value -> SR loc.
   Hypothesis Hdv : forall root st dp d, ext (dv root st dp d) (dv' root st dp d).
+
+  Lemma ext_taint {A} (m : bool) (a b : SR A) : ext a b -> ext (taint m a) (taint m b).
+  Proof.
+    intros H. destruct a as [[x m']|e p| |].
+    - rewrite (H ltac:(discriminate)). apply ext_refl.
+    - rewrite (H ltac:(discriminate)). apply ext_refl.
+    - rewrite (H ltac:(discriminate)). apply ext_refl.
+    - apply ext_oom.
+  Qed.
 
   Lemma force1_ext st v : ext (force1 dv st v) (force1 dv' st v).
   Proof. unfold force1. destruct (l_val v); try apply ext_refl; apply Hdv. Qed.
@@ -130,7 +139,7 @@ Section Mono.
     unfold ref_eval_s. pose proof (resolve_ref_s_ext root st p sep) as X.
     destruct (resolve_ref_s o dv root st p sep) as [r m].
     destruct r as [v| | | |e pe|r0]; try (rewrite (X ltac:(discriminate)); apply ext_refl).
-    - rewrite (X ltac:(discriminate)). apply ext_bind; [apply to_string_s_ext|]. intro x. apply ext_refl.
+    - rewrite (X ltac:(discriminate)). apply ext_taint. apply to_string_s_ext.
     - destruct r0; try (rewrite (X ltac:(discriminate)); apply ext_refl). apply ext_oom.
   Qed.
 
@@ -165,13 +174,12 @@ Section Mono.
     - intros p sep root st. cbn [exp_s]. apply ref_eval_s_ext.
     - intros ps F root st. cbn [exp_s]. generalize false as m. generalize ""%string as acc.
       induction F as [|x r Hx Hr IH]; intros acc m; [apply ext_refl|].
-      apply ext_bind; [apply Hx|]. intro y. apply IH.
+      apply ext_bind; [apply ext_taint; apply Hx|]. intro y. apply IH.
     - intros e sep IH root st. cbn [exp_s]. apply ext_bind; [apply IH|]. intro y.
-      apply ext_bind; [apply ref_eval_s_ext|]. intro z. apply ext_refl.
+      apply ext_taint. apply ref_eval_s_ext.
     - intros l r sep IHl IHr root st. cbn [exp_s].
-      assert (forall m, ext (y <- exp_s o dv r root st ;; Ok (fst y, m || snd y))
-                            (y <- exp_s o dv' r root st ;; Ok (fst y, m || snd y))) as D
-          by (intro m; apply ext_bind; [apply IHr|intro; apply ext_refl]).
+      assert (forall m, ext (taint m (exp_s o dv r root st)) (taint m (exp_s o dv' r root st))) as D
+          by (intro m; apply ext_taint; apply IHr).
       apply ext_handle; [apply IHl| |intros e p; apply D].
       intros [path m1]. destruct (String.eqb path ""); [apply D|].
       apply ext_handle; [apply ref_eval_s_ext| |intros e p; apply D].
@@ -181,11 +189,11 @@ Section Mono.
       intros [path m1]. destruct (String.eqb path ""); [apply ext_refl|].
       apply ext_handle; [apply ref_set_s_ext| |intros e p; apply ext_refl].
       intros [[|] m2]; [|apply ext_refl].
-      apply ext_bind; [apply IHr|]. intro y. apply ext_refl.
+      apply ext_taint. apply IHr.
     - intros l r sep IHl IHr root st. cbn [exp_s].
-      assert (ext (y <- exp_s o dv r root st ;; @Err (string * bool) EOther "!raw")
-                  (y <- exp_s o dv' r root st ;; @Err (string * bool) EOther "!raw")) as Fl
-          by (apply ext_bind; [apply IHr|intro; apply ext_refl]).
+      assert (forall m, ext (y <- taint m (exp_s o dv r root st) ;; taint (snd y) (@Err (string * bool) EOther "!raw"))
+                  (y <- taint m (exp_s o dv' r root st) ;; taint (snd y) (@Err (string * bool) EOther "!raw"))) as Fl
+          by (intro m; apply ext_bind; [apply ext_taint; apply IHr|intro; apply ext_refl]).
       apply ext_handle; [apply IHl| |intros e p; apply Fl].
       intros [path m1]. destruct (String.eqb path ""); [apply Fl|].
       apply ext_handle; [apply ref_eval_s_ext| |intros e p; apply Fl].
@@ -198,7 +206,7 @@ Section Mono.
     - unfold dyn_step_s. pose proof (resolve_ref_s_ext root st p sep) as X.
       destruct (resolve_ref_s o dv root st p sep) as [r m].
       destruct r as [v| | | |e pe|r0]; try (rewrite (X ltac:(discriminate)); apply ext_refl).
-      + rewrite (X ltac:(discriminate)). apply ext_bind; [apply force1_ext|]. intro x. apply ext_refl.
+      + rewrite (X ltac:(discriminate)). apply ext_taint. apply force1_ext.
       + destruct r0; try (rewrite (X ltac:(discriminate)); apply ext_refl). apply ext_oom.
     - unfold dyn_step_s. apply ext_bind; [apply exp_s_ext|]. intro x. apply ext_refl.
   Qed.
@@ -221,7 +229,7 @@ Proof.
   unfold spec_string. apply ext_bind.
   - apply get_path_s_ext. intros. apply dyn_s_fuel. exact L.
   - intro x. destruct (fst x) as [[v|]|e pe| |]; try apply ext_refl.
-    apply ext_bind; [|intro; apply ext_refl]. apply to_string_s_ext. intros. apply dyn_s_fuel. exact L.
+    apply ext_taint. apply to_string_s_ext. intros. apply dyn_s_fuel. exact L.
 Qed.
 
 (* the diamond and the repeated use of the demo tree of ProofsVarEval, by the specification *)
